@@ -1,7 +1,8 @@
 (* C15/Property.v — ONLY the property theorems (each closed by a lemma of Proofs*.v) + Print Assumptions.
    Models: C15/Model.v (A: NameAuthority / graph histories, B: NameFixPass, C: rename_values). *)
 From Coq Require Import NArith List Bool Lia.
-From IRV Require Import Base.Exn C15.Model C15.ProofsA C15.ProofsA2 C15.ProofsB C15.ProofsB2 C15.ProofsB3 C15.ProofsC C15.ProofsC2 C15.ProofsC3.
+From IRV Require Import Base.Exn C15.Model C15.ProofsA C15.ProofsA2 C15.ProofsB C15.ProofsB2 C15.ProofsB3 C15.ProofsC C15.ProofsC2 C15.ProofsC3
+  C15.ProofsB4 C15.ProofsB5 C15.ProofsB6 C15.ProofsB7 C15.ProofsB8 C15.ProofsB9 C15.ProofsB10 C15.ProofsB11 C15.ProofsB12 C15.ProofsB13 C15.ProofsB14.
 Import ListNotations.
 Open Scope N_scope.
 
@@ -68,7 +69,16 @@ Qed.
 Print Assumptions C15_graph_history.
 
 (* ===================== (B) NameFixPass (the code after fix 25cf9b5: fresh names avoid every name that
-   exists in the graph) ===================== *)
+   exists in the graph).  Hypotheses used below:
+     WF0 vn inits       the part of the C01 invariant the pass relies on (clause I5): every initializer dictionary
+                        is keyed by the names of its values, keys are distinct and non-empty, a value is in at most
+                        one dictionary, graph ids are distinct;
+     closed_run es inits every initializer the traversal meets belongs to a graph the traversal enters (true of
+                        every valid model: function bodies are closed; needed: C15_fix_total_unclosed_refuted);
+     well_scoped es inits every value is first met in the scope of its graph or of an enclosing graph (e.g. sorted
+                        graphs whose subgraphs capture only values defined before the enclosing node) - a
+                        name-free property of the traversal (needed: C15_fix_post_unsorted_refuted);
+     NoDup (ev_nodes es) no node is visited twice (no subgraph object shared by two attributes). ================ *)
 
 (* The `while` loop of _find_and_record_next_unique_name terminates: no run, over any event list from any
    state, ever ends in the model's out-of-fuel marker. *)
@@ -77,79 +87,76 @@ Theorem C15_fix_fuel_suffices :
 Proof. exact fix_all_nofuel. Qed.
 Print Assumptions C15_fix_fuel_suffices.
 
-(* FULL STATEMENT (C15_fix_total): for every model the pass returns without raising.
-   Before 25cf9b5 it was refuted (inputs [w], initializers [w; w_1] -> ValueError); that witness now passes
-   (C15_fix_total_witness_fixed).  PROVED (partial): (1) the only exception any run can end with is the
-   ValueError of the initializer name guard - never an index error on the scope stacks (the traversal's
-   enter/exit events are balanced for every nesting), never out-of-fuel; (2) a model without initializers is
-   never rejected.  MISSING for the full statement: that a fresh name (outside the pre-scanned set and the
-   current scope) never equals a key created by an earlier rename of the same run; the correspondence and the
-   oracle cover it by sampling (no raise observed). *)
-Theorem C15_fix_total_partial :
-  (forall g vn nn inits m e, snd (fix_graph_names g vn nn inits m) = Some e -> e = ValueError) /\
-  (forall main funcs vn nn inits, (forall v, owner_of v inits = None) ->
-     snd (name_fix_pass main funcs vn nn inits) = None).
-Proof. split; [exact fix_graph_names_only_valueerror | exact name_fix_pass_total_no_inits]. Qed.
-Print Assumptions C15_fix_total_partial.
+(* C15_fix_total: on well-formed, closed models the pass (main graph, then every function) never raises;
+   the state it returns is well-formed again (initializers keyed by their current names) and every graph has
+   exactly the initializer values it had.  Invariant behind it (ProofsB4.TInv): in every entered graph a key is
+   the value's original name (and then pre-scanned) or <original name>_<j>; a fresh name is outside the
+   pre-scanned set and is <own original name>_<j>, and _-suffixing is injective in both arguments. *)
+Theorem C15_fix_total :
+  forall main funcs vx nx vn nn inits,
+  WF0 vn inits -> (forall g, In g (main :: funcs) -> closed_run (events_graph g) inits) ->
+  let r := name_fix_pass main funcs vx nx vn nn inits in
+  snd r = None /\ WF0 (f_vn (fst r)) (f_inits (fst r)) /\ mem_equiv (f_inits (fst r)) inits.
+Proof. exact name_fix_pass_total. Qed.
+Print Assumptions C15_fix_total.
 
+(* without closedness the statement is false on the code as it exists: a function body reading an initializer
+   `a` of the main graph whose initializers are a, a_1 (not valid ONNX) -> ValueError.  Known finding. *)
+Theorem C15_fix_total_unclosed_refuted :
+  exists main funcs vn nn inits,
+  snd (name_fix_pass main funcs (fun _ => 0) (fun _ => 0) vn nn inits) = Some ValueError.
+Proof. do 5 eexists. exact fix_total_unclosed_refuted. Qed.
+Print Assumptions C15_fix_total_unclosed_refuted.
+
+(* the witness that refuted totality before 25cf9b5 *)
 Theorem C15_fix_total_witness_fixed :
-  let r := name_fix_pass wit_total_graph [] wit_total_vn (fun _ => None) wit_total_inits in
+  let r := name_fix_pass wit_total_graph [] (fun _ => 0) (fun _ => 0) wit_total_vn (fun _ => None) wit_total_inits in
   snd r = None /\ map (f_vn (fst r)) [0; 1; 2] = [Some s_w; Some [119; 95; 50]; Some s_w1] /\
   f_inits (fst r) = [(0, [(s_w1, 2); ([119; 95; 50], 1)])].
 Proof. exact wit_total_now_ok. Qed.
 Print Assumptions C15_fix_total_witness_fixed.
 
-(* FULL STATEMENT (C15_fix_keeps_unique): names that were already unique are kept (values and nodes, whole pass).
-   Before 25cf9b5 refuted (x, x, x_1 -> x, x_1, x_1_1).  PROVED for the fixed code: in one _fix_graph_names
-   run over ANY graph (any nesting, sorted or not, with or without initializers), a value met by the traversal
-   (graph input/output, node input/output) whose non-empty name no other value carries has the same name after
-   an Ok run.  MISSING: the same for node names (same argument over the node scopes) and for values reachable
-   only through an initializer dictionary; composition over the functions of a model. *)
-Theorem C15_fix_keeps_unique_partial :
-  forall g vn nn inits m v n,
-  vn v = Some n -> n <> [] -> (forall w, w <> v -> vn w <> Some n) ->
-  In v (ev_values (events_graph g)) ->
-  forall s', fix_graph_names g vn nn inits m = (s', None) -> f_vn s' v = Some n.
-Proof. exact fix_keeps_unique_value. Qed.
-Print Assumptions C15_fix_keeps_unique_partial.
+(* C15_fix_post, for one _fix_graph_names run over any nesting (g is the main graph or a function body):
+   the run does not raise; every value and node it meets has a non-empty name; for EVERY graph h nested in g
+   (h = g included) the values within h (inputs, initializers, outputs of its nodes) together with the visible
+   values of the enclosing graphs (`vis`: their inputs, initializers and node outputs up to and including the
+   enclosing node) carry pairwise distinct names; the nodes of every h carry pairwise distinct names;
+   initializers are keyed by their current names (WF0 of the final state). *)
+Theorem C15_fix_post :
+  forall g vx nx vn nn inits m,
+  WF0 vn inits -> closed_run (events_graph g) inits -> NoDup (ev_nodes (events_graph g)) ->
+  well_scoped (events_graph g) inits ->
+  let r := fix_graph_names g vx nx vn nn inits m in
+  let s' := fst r in
+  snd r = None /\
+  (forall v, run_vals (events_graph g) inits v -> exists x, f_vn s' v = Some x /\ x <> []) /\
+  (forall a, In a (ev_nodes (events_graph g)) -> exists x, f_nn s' a = Some x /\ x <> []) /\
+  (forall vis h, nested (dv inits) [] g vis h ->
+     forall v w, In v (vis ++ own (dv inits) h) -> In w (vis ++ own (dv inits) h) -> v <> w -> f_vn s' v <> f_vn s' w) /\
+  (forall h, sub_of g h -> forall a b, In a (own_nodes h) -> In b (own_nodes h) -> a <> b -> f_nn s' a <> f_nn s' b) /\
+  WF0 (f_vn s') (f_inits s').
+Proof. exact fix_post_graph. Qed.
+Print Assumptions C15_fix_post.
 
-Theorem C15_fix_keeps_unique_witness_fixed :
-  let r := name_fix_pass wit_keep_graph [] wit_keep_vn (fun _ => None) [] in
-  snd r = None /\ map (f_vn (fst r)) [0; 1; 2] = [Some s_x; Some [120; 95; 50]; Some s_x1].
-Proof. exact wit_keep_now_ok. Qed.
-Print Assumptions C15_fix_keeps_unique_witness_fixed.
+(* the hypotheses are satisfiable by a nested graph with duplicated and missing names (and the unsorted witness
+   below is exactly a graph that is not well_scoped) *)
+Definition ex_sorted : graph :=
+  Graph 0 false [0] [3] [Node 2 [Some 0] [1] []; Node 0 [Some 0] [3] [Graph 1 false [5] [2] [Node 1 [Some 1; Some 5] [2] []]];
+                         Node 3 [Some 1] [4] []].
+Example ex_sorted_hyps :
+  WF0 (fun _ => Some s_x) [] /\ closed_run (events_graph ex_sorted) [] /\ NoDup (ev_nodes (events_graph ex_sorted)) /\
+  well_scoped (events_graph ex_sorted) [] /\ ~ well_scoped (events_graph wit_unsorted_graph) [].
+Proof.
+  split; [constructor; simpl; [constructor | intros g k v [] | intros g; constructor | intros g1 g2 k1 k2 v []]|].
+  split; [intros w _ g k []|].
+  split; [vm_compute; repeat constructor; simpl; intuition discriminate|].
+  split; [vm_compute; reflexivity | vm_compute; discriminate].
+Qed.
 
-(* FULL STATEMENT (C15_fix_post): after an Ok run every node/value has a non-empty name, value names are
-   pairwise distinct within each graph and differ from visible enclosing-scope names, node names are distinct
-   per graph, initializers are keyed by their names.  PROVED (partial): the step every clause rests on - one
-   _process_value call on an unseen value either raises the initializer guard's ValueError or leaves the value
-   with a non-empty name that was NOT in the current scope's used set (which holds the names of everything
-   visible), records it there, marks the value seen, changes no other name and nothing else; a changed name
-   never equals a name that existed in the graph before the run; a seen value is never touched again.
-   MISSING: the assembly over the traversal (per-graph distinctness under the well-scoped hypothesis).
-   Without that hypothesis the statement is false: C15_fix_post_unsorted_refuted below. *)
-Theorem C15_fix_post_partial :
-  forall v s used rest, f_vscopes s = used :: rest ->
-  let '(s', e) := process_value v s in
-  if memN v (f_seen s) then s' = s /\ e = None else
-  match e with
-  | Some x => x = ValueError /\ owner_of v (f_inits s) <> None
-  | None =>
-      exists new, f_vn s' v = Some new /\ new <> [] /\ ~ In new used /\
-        f_vscopes s' = (new :: used) :: rest /\ f_seen s' = v :: f_seen s /\
-        (forall u, u <> v -> f_vn s' u = f_vn s u) /\ f_nn s' = f_nn s /\ f_nscopes s' = f_nscopes s /\
-        (forall n, f_vn s v = Some n -> n <> [] -> ~ In n used -> new = n) /\
-        (owner_of v (f_inits s) = None -> f_inits s' = f_inits s) /\
-        (f_vn s v <> Some new -> ~ In new (f_rv s)) /\ f_rv s' = f_rv s /\ f_rn s' = f_rn s
-  end.
-Proof. exact process_value_spec. Qed.
-Print Assumptions C15_fix_post_partial.
-
-(* FULL STATEMENT (C15_fix_post without a scoping hypothesis): after an Ok run the values within a graph
-   have pairwise distinct names.  REFUTED for graphs that are not topologically sorted. *)
+(* C15_fix_post without the scoping hypothesis is false on the code as it exists (known finding). *)
 Theorem C15_fix_post_unsorted_refuted :
   exists main vn nn u v,
-  let r := name_fix_pass main [] vn nn [] in
+  let r := name_fix_pass main [] (fun _ => 0) (fun _ => 0) vn nn [] in
   snd r = None /\ f_mod (fst r) = false /\ u <> v /\ In u (own_values main) /\ In v (own_values main) /\
   f_vn (fst r) u = f_vn (fst r) v.
 Proof.
@@ -157,6 +164,54 @@ Proof.
   destruct fix_post_unsorted_refuted as [A [B [C [D E]]]]. repeat split; try assumption. discriminate.
 Qed.
 Print Assumptions C15_fix_post_unsorted_refuted.
+
+
+(* C15_fix_keeps_unique, whole pass, values: the graphs of the model meet pairwise disjoint sets of values, the
+   value is met by graph g (as graph input/output, node input/output or only through an initializer dictionary)
+   and no other value met by g carries its non-empty name: it keeps that name. *)
+Theorem C15_fix_keeps_unique :
+  forall l1 g l2 vx nx vn nn inits v n main funcs,
+  main :: funcs = l1 ++ g :: l2 ->
+  WF0 vn inits -> (forall g', In g' (main :: funcs) -> closed_run (events_graph g') inits) ->
+  vn v = Some n -> n <> [] -> run_vals (events_graph g) inits v ->
+  (forall w, w <> v -> run_vals (events_graph g) inits w -> vn w <> Some n) ->
+  (forall g' w, In g' (l1 ++ l2) -> run_vals (events_graph g) inits w -> ~ run_vals (events_graph g') inits w) ->
+  f_vn (fst (name_fix_pass main funcs vx nx vn nn inits)) v = Some n.
+Proof. exact pass_keeps_unique_value. Qed.
+Print Assumptions C15_fix_keeps_unique.
+
+(* ... and node names *)
+Theorem C15_fix_keeps_unique_node :
+  forall l1 g l2 vx nx vn nn inits a n main funcs,
+  main :: funcs = l1 ++ g :: l2 ->
+  WF0 vn inits -> (forall g', In g' (main :: funcs) -> closed_run (events_graph g') inits) ->
+  NoDup (ev_nodes (events_graph g)) ->
+  nn a = Some n -> n <> [] -> In a (ev_nodes (events_graph g)) ->
+  (forall b, b <> a -> In b (ev_nodes (events_graph g)) -> nn b <> Some n) ->
+  (forall g' b, In g' (l1 ++ l2) -> In b (ev_nodes (events_graph g)) -> ~ In b (ev_nodes (events_graph g'))) ->
+  f_nn (fst (name_fix_pass main funcs vx nx vn nn inits)) a = Some n.
+Proof. exact pass_keeps_unique_node. Qed.
+Print Assumptions C15_fix_keeps_unique_node.
+
+(* the witness that refuted it before 25cf9b5 *)
+Theorem C15_fix_keeps_unique_witness_fixed :
+  let r := name_fix_pass wit_keep_graph [] (fun _ => 0) (fun _ => 0) wit_keep_vn (fun _ => None) [] in
+  snd r = None /\ map (f_vn (fst r)) [0; 1; 2] = [Some s_x; Some [120; 95; 50]; Some s_x1].
+Proof. exact wit_keep_now_ok. Qed.
+Print Assumptions C15_fix_keeps_unique_witness_fixed.
+
+(* C15_fix_only_names: the model state carries, beside the names, an opaque payload per value and per node
+   (everything the implementation stores there that is not a name; the tie feeds it from the implementation and
+   compares it afterwards).  For every model and whatever the outcome, Ok or Raise, the payloads are unchanged;
+   on well-formed closed models every graph keeps exactly its initializer values. *)
+Theorem C15_fix_only_names :
+  forall main funcs vx nx vn nn inits,
+  let r := name_fix_pass main funcs vx nx vn nn inits in
+  f_vx (fst r) = vx /\ f_nx (fst r) = nx /\
+  (WF0 vn inits -> (forall g, In g (main :: funcs) -> closed_run (events_graph g) inits) ->
+     mem_equiv (f_inits (fst r)) inits).
+Proof. exact fix_only_names. Qed.
+Print Assumptions C15_fix_only_names.
 
 (* ===================== (C) rename_values ===================== *)
 
